@@ -158,29 +158,47 @@ def check_forced(run, r, sched, nthreads, ncalls, counts_expected=True):
                 return ("sched:real-exec-differs", "spec_violation", "thread %d call %d: real exec saw %s, expected %s" % (i, j, reals.get((i, j)), want_r))
             if (i, j, -1, 2) not in tr["ret"]:
                 return ("sched:return-differs", "spec_violation", "thread %d call %d did not get (-1, ENOENT) back" % (i, j))
-    # exactly one record per call, with its own path, arguments and thread identity, nothing from another thread
-    recs = {}
-    for line in r["out"]:
-        f = line.split(b"|")
-        key = f[2].split(b" ")[0] if len(f) > 2 else b"?"
-        recs.setdefault(key, []).append(f)
-    if len(r["out"]) != nthreads * ncalls:
-        return ("sched:record-count", "spec_violation", "%d records for %d calls" % (len(r["out"]), nthreads * ncalls))
+    return check_records(r, nthreads, ncalls, sched["counts"] if counts_expected else None)
+
+
+def check_records(r, nthreads, ncalls, counts=None, wide=False):
+    """exactly one record per call, made of the call's own path, arguments and thread identity and of nothing else"""
+    tr = r["trace"]
+    want = {}
     for i in range(nthreads):
-        seen_counts = []
         for j in range(ncalls):
             path, argv = call_strings(i, j)
-            rs = recs.get(argv[0].encode(), [])
-            if len(rs) != 1:
-                return ("sched:record-count", "spec_violation", "thread %d call %d has %d records" % (i, j, len(rs)))
-            f = rs[0]
-            want_tail = [tr["tid"].get(i, "?").encode(), " ".join(argv).encode(), path.encode()]
-            if f[1:4] != want_tail or len(f) < 4:
-                return ("sched:record-differs", "spec_violation", "thread %d call %d: record %r is not its own (thread id, arguments, path = %r)" % (i, j, b"|".join(f)[:200], want_tail))
-            seen_counts.append(int(f[0]) if f[0].isdigit() else -1)
-        if counts_expected and seen_counts != sched["counts"].get(i, []):
-            return ("sched:thread-count-differs", "spec_violation",
-                    "thread %d saw %%{snoopy_threads} = %s, the model run on the same schedule gives %s" % (i, seen_counts, sched["counts"].get(i)))
+            want[(i, j)] = [tr["tid"].get(i, "?").encode(), " ".join(argv).encode(), path.encode()]
+    got = {}
+    foreign = []
+    for line in r["out"]:
+        f = line.split(b"|")
+        hit = [k for k, w in want.items() if len(f) >= 4 and f[1:4] == w]
+        if hit:
+            got.setdefault(hit[0], []).append(f)
+        else:
+            foreign.append(line)
+    missing = sorted(k for k in want if k not in got)
+    dup = sorted(k for k, v in got.items() if len(v) > 1)
+    if foreign:
+        # which call does the damaged record belong to, and whose content does it show?
+        owner = [k for k in missing if call_strings(*k)[1][0].encode() in foreign[0]]
+        others = [k for k in want if k not in owner and (call_strings(*k)[1][0].encode() in foreign[0] or call_strings(*k)[0].encode() in foreign[0])]
+        return ("sched:record-differs", "spec_violation",
+                "record %r is not the record of any call (own thread id | own arguments | own path)%s%s; calls without a record of their own: %s"
+                % (foreign[0][:200], "; it belongs to thread %d call %d" % owner[0] if owner else "", "; it shows content of thread %d call %d" % others[0] if others else "", missing[:4]))
+    if dup:
+        return ("sched:record-foreign-content", "spec_violation",
+                "thread %d call %d was logged %d times and thread %d call %d not at all: a call's record shows another thread's content"
+                % (dup[0][0], dup[0][1], len(got[dup[0]]), missing[0][0] if missing else -1, missing[0][1] if missing else -1))
+    if missing or len(r["out"]) != nthreads * ncalls:
+        return ("sched:record-count", "spec_violation", "%d records for %d calls; no record for %s" % (len(r["out"]), nthreads * ncalls, missing[:4]))
+    if counts is not None:
+        for i in range(nthreads):
+            seen = [int(got[(i, j)][0][0]) if got[(i, j)][0][0].isdigit() else -1 for j in range(ncalls)]
+            if seen != counts.get(i, []):
+                return ("sched:thread-count-differs", "spec_violation",
+                        "thread %d saw %%{snoopy_threads} = %s, the model run on the same schedule gives %s" % (i, seen, counts.get(i)))
     return None
 
 
@@ -291,10 +309,14 @@ def check(run):
         if r["status"] != 0:
             run.violation("stress:caller-died:%s" % r["status"], "crash", "stress run with %d threads x %d calls ended with status %s: %s" % (T, c, r["status"], r["stderr"][-300:]),
                           {"failing_input": {"mode": "stress", "threads": T, "calls": c}, "mode": "stress", "threads": T, "calls": c, "ini": INI_WIDE.decode()})
-        elif len(r["out"]) != T * c:
-            run.violation("stress:record-count", "spec_violation", "stress run: %d records for %d calls" % (len(r["out"]), T * c),
-                          {"failing_input": {"mode": "stress", "threads": T, "calls": c}, "mode": "stress", "threads": T, "calls": c, "ini": INI_WIDE.decode()})
-    for (kind, f, fn), (where, err) in sorted(tsan_seen.items()):
+        else:
+            bad = check_records(r, T, c)
+            if bad:
+                run.violation("stress:" + bad[0].split(":", 1)[1], bad[1], "stress run with %d threads x %d calls: %s" % (T, c, bad[2]),
+                              {"failing_input": {"mode": "stress", "threads": T, "calls": c}, "mode": "stress", "threads": T, "calls": c, "ini": INI_WIDE.decode()})
+    if len(tsan_seen) > 4:
+        run.notes.append("ThreadSanitizer reported %d distinct locations; the first 4 are listed as violations: %s" % (len(tsan_seen), sorted("%s:%s" % (f, fn) for (_, f, fn) in tsan_seen)))
+    for (kind, f, fn), (where, err) in sorted(tsan_seen.items(), key=lambda kv: (not isinstance(kv[1][0], int), kv[0]))[:4]:
         rep = {"tsan_report": {"kind": kind, "file": f, "function": fn}, "ini": INI_WIDE.decode(), "stderr": err}
         if isinstance(where, int):
             rep.update({"failing_input": {"threads": 2, "calls": 1, "ops": ops_w, "schedule": ",".join(map(str, sc[where]["ids"])), "tsan": True},
